@@ -113,8 +113,9 @@ def build_interface_case(rng, g, plane, export, source, theta, phi, gap):
     for _ in range(400):
         n = rng.choice([6, 10, 16])
         # a slab: chain A just above, chain B just below the plane z = 0; far atoms of both chains dilute the rest
-        nearA = np.column_stack([g.uniform(-7, 7, n), g.uniform(-5, 5, n), g.uniform(0.8, 2.0, n)])
-        nearB = np.column_stack([g.uniform(-7, 7, n), g.uniform(-5, 5, n), g.uniform(-2.0, -0.8, n)])
+        wy = math.sqrt(6.3 * gap); wx = wy * g.uniform(1.1, 1.5)
+        nearA = np.column_stack([g.uniform(-wx, wx, n), g.uniform(-wy, wy, n), g.uniform(0.8, 2.0, n)])
+        nearB = np.column_stack([g.uniform(-wx, wx, n), g.uniform(-wy, wy, n), g.uniform(-2.0, -0.8, n)])
         farA = np.column_stack([g.uniform(-9, 9, 4), g.uniform(-9, 9, 4), g.uniform(14, 25, 4)])
         farB = np.column_stack([g.uniform(-9, 9, 4), g.uniform(-9, 9, 4), g.uniform(-25, -14, 4)])
         X = np.vstack([nearA, farA, nearB, farB])
@@ -123,7 +124,7 @@ def build_interface_case(rng, g, plane, export, source, theta, phi, gap):
         mask = contact_mask(X, chains, cutoff)
         if mask is None or sum(mask) < 4:
             continue
-        if gap_ratio(X[np.array(mask)], least=True) >= max(1.05, gap * 0.5):
+        if gap_ratio(X[np.array(mask)], least=True) >= 1.05:
             break
     else:
         raise RuntimeError('could not build an interface with the requested gap')
@@ -144,7 +145,7 @@ def cases(ctx):
     rng.shuffle(grid)
     k = 0
     # every axis x selection x export at grid orientations; the grid is covered cyclically
-    for rep in range(ctx.scale(3, 12)):
+    for rep in range(ctx.scale(3, 40)):
         for axis in ('x', 'y', 'z'):
             for selkind in ('all', 'chain', 'name'):
                 for export in (False, True):
@@ -155,13 +156,13 @@ def cases(ctx):
     for axis in ('x', 'y', 'z'):
         for theta, phi in (GRID if ctx.thorough else GRID[::3]):
             out.append(build_align_case(rng, g, axis, 'all', False, 'object', theta, phi, rng.choice([1.08, 3.0])))
-    for rep in range(ctx.scale(4, 12)):
+    for rep in range(ctx.scale(4, 60)):
         for plane in ('xy', 'xz', 'yz'):
             for export in (False, True):
                 theta, phi = grid[k % len(grid)]; k += 1
-                out.append(build_interface_case(rng, g, plane, export, 'object', theta, phi, rng.choice([1.5, 4.0, 20.0])))
+                out.append(build_interface_case(rng, g, plane, export, 'object', theta, phi, rng.choice([1.2, 1.5, 4.0, 12.0])))
     # random orientations off the grid
-    for _ in range(ctx.scale(20, 400)):
+    for _ in range(ctx.scale(20, 1500)):
         theta, phi = math.acos(rng.uniform(-1, 1)), rng.uniform(-math.pi, math.pi)
         out.append(build_align_case(rng, g, rng.choice('xyz'), rng.choice(['all', 'chain', 'name']), False, 'object', theta, phi,
                                     rng.choice([1.06, 1.5, 10.0])))
